@@ -6,7 +6,7 @@ from engine import Op, set_mode
 
 PROP = "C20"
 QUICK_BOOST = 2
-LEAN_MODULES = ["IsoDT.Props.C20", "IsoDT.Props.C20b", "IsoDT.Props.C20q"]
+LEAN_MODULES = ["IsoDT.Props.C20", "IsoDT.Props.C20b", "IsoDT.Props.C20q", "IsoDT.Props.C20r"]
 RULE = ("truncated points of every shape (time-of-day fields T06, T-30, T--15, ...; one day designator: "
         "day-of-month, day-of-year, weekday, week + weekday; alone or combined) x every field value incl. day "
         "29-31, day-of-year 366, week 53 x full whole-second points (3 representations, any offset, incl. 24:00, "
@@ -38,6 +38,8 @@ def time_pattern(t):
     week, dow, dom, doy, hh, mi, ss, tzh, tzm = t
     if hh is None and mi is None and ss is None:
         return None
+    if hh == 24:
+        hh = 0      # the end-of-day hour is 00:00 of the next day, as 24:00 is read everywhere (finding F21)
     if hh is not None and mi is None:
         mi = 0
     if ss is None:
@@ -112,10 +114,12 @@ def gen_trunc(rng, m, shape=None):
     hh = mi = ss = week = dow = dom = doy = None
     if "h" in tm:
         hh = rng.choice([0, 6, 12, 23, rng.randint(0, 23)])
+        if rng.random() < 0.06:
+            hh = 24          # the end-of-day spelling: legal on a truncated point with minute / second zero
     if "m" in tm:
-        mi = rng.choice([0, 30, 59, rng.randint(0, 59)])
+        mi = rng.choice([0, 30, 59, rng.randint(0, 59)]) if hh != 24 else 0
     if "s" in tm:
-        ss = rng.choice([0, 15, 59, rng.randint(0, 59)])
+        ss = rng.choice([0, 15, 59, rng.randint(0, 59)]) if hh != 24 else 0
     maxdom = max(oracle.month_tab(m, True))
     if dy == "dom":
         dom = rng.choice([1, 15, 28, 29, 30, 31, rng.randint(1, maxdom)])
